@@ -1,6 +1,8 @@
 ------------------------------- MODULE DatGen -------------------------------
 (* GEN form of C15: TLC enumerates                                                                               *)
-(*   - the abstract credential cases (class x protocol version x number of RoT keys x used index x wildcard),   *)
+(*   - the abstract credential cases (class x protocol version x number of RoT keys x used index x wildcard x   *)
+(*     which key of the case - used RoT key, another RoT key, debug key - has an X / Y coordinate with a leading *)
+(*     zero byte, DatLayout.ValidShape),                                                                         *)
 (*   - the histories of the honest host (sequences of answers re-using configuration / credential / response      *)
 (*     objects, DatTerms),                                                                                       *)
 (*   - every delivery attempt of the intruder world of DatTerms: an original response (built by the honest host *)
